@@ -284,6 +284,44 @@ Theorem C15_referrers_callback_error :
 Proof. exact wrap_callback_error. Qed.
 Print Assumptions C15_referrers_callback_error.
 
+(* end to end, unknown capability, registry with the referrers API (hypotheses of C15_filter):
+   exactly the requested referrers, capability becomes supported, no tag schema *)
+Theorem C15_referrers_unknown_with_api :
+  forall (L : list item) (cap : nat) (ds : nat -> decision)
+         (render : nat -> url -> url -> str) (trailer : nat -> str)
+         (resolve : url -> str -> option url) (c : cfg) (path : str) (fuel : nat) cbu ts,
+    c_kind c = KReferrers ->
+    NoDup (map fst L) -> (forall it, In it L -> fst it <> []) ->
+    (forall i base x, In x (map fst L) ->
+       contains c_gt (render i base (link_target (ds i) base x)) = false) ->
+    (forall i base x, In x (map fst L) ->
+       resolve base (render i base (link_target (ds i) base x)) = Some (link_target (ds i) base x)) ->
+    (forall i, (Z.of_N (d_doc_len (ds i)) <= eff_limit (c_limit c))%Z) ->
+    (forall i, qget k_at (d_extra (ds i)) = None) ->
+    (length L < fuel)%nat ->
+    let api := loop (reg_serve KReferrers L cap ds render trailer) resolve (fun _ => false) c
+                    fuel 0 0 (mkUrl path (referrers_query (c_at c))) [] in
+    let w := referrers_wrap RUnknown cbu api ts in
+    w_out w = Done /\ concat (w_pages w) = filter_referrers L (c_at c) /\
+    w_state w = RSupported /\ w_fell_back w = false.
+Proof. exact referrers_unknown_with_api. Qed.
+Print Assumptions C15_referrers_unknown_with_api.
+
+(* unknown capability, registry answering the referrers endpoint with a plain 404: one API
+   request, then exactly the tag-schema result (C15_tag_schema), capability unsupported *)
+Theorem C15_referrers_unknown_without_api :
+  forall (serve : nat -> url -> response) (resolve : url -> str -> option url) (c : cfg)
+         (cb_fail : nat -> bool) (u : url) (fuel : nat) cbu found size items,
+    c_kind c = KReferrers -> (0 < fuel)%nat ->
+    (forall i rq, rs_status (serve i rq) = 404 /\ rs_name_unknown (serve i rq) = false) ->
+    let api := loop serve resolve cb_fail c fuel 0 0 u [] in
+    let ts := fun k => tag_schema (c_limit c) found size items (c_at c) (fun j => cb_fail (k + j)%nat) in
+    let w := referrers_wrap RUnknown cbu api ts in
+    length (w_reqs w) = 1%nat /\ w_fell_back w = true /\ w_state w = RUnsupported /\
+    w_pages w = fst (ts 0%nat) /\ w_out w = snd (ts 0%nat).
+Proof. exact referrers_unknown_without_api. Qed.
+Print Assumptions C15_referrers_unknown_without_api.
+
 (* the code before the fix (model referrers_wrap_prefix): a callback error of the unsupported
    class was swallowed, the tag schema run, a referrer delivered twice, success returned *)
 Theorem C15_referrers_fallback_refuted :
